@@ -21,6 +21,9 @@ def declare(reg, eng):
                      ("C12", "implies(isint(value) or isbool(value) or isfloat(value) or isstr(value), result is value)"),
                      ("C12", "implies(ispath(value), isclass(result, dict) and lookup(result, 'type') == 'path' and lookup(result, 'value') == str(value))"),
                      ("C12", "implies(isclass(value, Config), isclass(result, dict) and lookup(result, 'type') == 'python' and lookup(result, 'value') == id(value))"),
+                     # an enum member is written with what the loader resolves it from: module, *qualified* class name, member name
+                     ("C12", "implies(isclass(value, Enum), isclass(result, dict) and lookup(result, 'type') == 'enum' and lookup(result, 'module') == value.__class__.__module__ "
+                             "and lookup(result, 'enum') == value.__class__.__qualname__ and lookup(result, 'value') == value.name)"),
                      ("C12", "implies(isclass(value, list), isclass(result, list) and length(result) == length(value))"),
                      ("C12", "implies(isclass(value, list), forall(k, 0, length(result), at(result, k) == jsonv(at(value, k))))"),
                      # a plain dictionary is encoded as a dictionary over (a subset of) the same keys; the decoder recognises it as
